@@ -123,11 +123,27 @@ func cmdCheck(args []string) {
 
 	var all []*oblig
 	var rejected []string
+	findings := loadFindings(filepath.Join(*verif, "known-findings.txt"))
 	for _, r := range results {
 		if r.rejected != "" {
 			rejected = append(rejected, r.name+": "+r.rejected)
 		}
-		all = append(all, r.obligs...)
+		tagged := false
+		if b := e.db.funcs[r.name]; b != nil && hasProp(b.props, *prop) {
+			tagged = true
+		}
+		for _, o := range r.obligs {
+			// a clause with its own property list belongs only to those properties
+			if tagged && len(o.props) > 0 && !hasProp(o.props, *prop) {
+				continue
+			}
+			for _, f := range findings {
+				if f.kind == "finding" && f.oblig == o.name {
+					o.baseline = true // recorded finding: one solver, quick timeout
+				}
+			}
+			all = append(all, o)
+		}
 	}
 	all = append(all, lemmaRes...)
 	dir, _ := os.MkdirTemp("", "kvc-"+*prop)
@@ -151,7 +167,6 @@ func cmdCheck(args []string) {
 	sort.SliceStable(all, func(i, j int) bool { return all[i].name < all[j].name })
 
 	// 2. verdicts
-	findings := loadFindings(filepath.Join(*verif, "known-findings.txt"))
 	var failed, known []*oblig
 	discharged := 0
 	solverTime := 0.0
